@@ -783,6 +783,12 @@ func (p *BinaryProtocol) ReadInt(t proto.Type) (value int, err error) {
 	case proto.UINT64:
 		n, err := p.ReadUint64()
 		return int(n), err
+	case proto.FIX32:
+		n, err := p.ReadFixed32()
+		return int(uint32(n)), err
+	case proto.FIX64:
+		n, err := p.ReadFixed64()
+		return int(n), err
 	default:
 		return 0, errInvalidDataType
 	}
